@@ -152,18 +152,18 @@ func runC08Hijack(run *Run, seed int64, reclaim time.Duration, carrier string) (
 // ---- part B/C: Leave on real clusters ----
 
 type c08Leave struct {
-	N          int           `json:"n"`
-	Mode       string        `json:"mode"` // responsive | departing
-	Loss       float64       `json:"loss"`
-	Delay      time.Duration `json:"delay_ns"`
-	Dup        float64       `json:"dup"`
-	LeaveAt    time.Duration `json:"leave_at_ns"`
-	Timeout    time.Duration `json:"leave_timeout_ns"`
-	Race       string        `json:"race,omitempty"` // "" | suspect | dead  (accusation injected inside Leave)
-	RaceRel    int           `json:"race_inc_rel,omitempty"`
-	Updates    int           `json:"updates_before"`
-	Replay     bool          `json:"replay_old_alive"`
-	SuspectPeers bool        `json:"leaver_suspects_all_peers"` // every peer is only a suspect in the leaver's table when it leaves
+	N            int           `json:"n"`
+	Mode         string        `json:"mode"` // responsive | departing
+	Loss         float64       `json:"loss"`
+	Delay        time.Duration `json:"delay_ns"`
+	Dup          float64       `json:"dup"`
+	LeaveAt      time.Duration `json:"leave_at_ns"`
+	Timeout      time.Duration `json:"leave_timeout_ns"`
+	Race         string        `json:"race,omitempty"` // "" | suspect | dead  (accusation injected inside Leave)
+	RaceRel      int           `json:"race_inc_rel,omitempty"`
+	Updates      int           `json:"updates_before"`
+	Replay       bool          `json:"replay_old_alive"`
+	SuspectPeers bool          `json:"leaver_suspects_all_peers"` // every peer is only a suspect in the leaver's table when it leaves
 }
 
 func runC08Leave(run *Run, seed int64, sc c08Leave, rng *rand.Rand) (out []*c01Result, logs map[string][]string) {
@@ -436,7 +436,7 @@ func TestC08(t *testing.T) {
 			}
 		}
 	}
-	n := run.Pick(72, 3000)
+	n := run.Pick(216, 24000)
 	for i := 0; i < n; i++ {
 		if !run.Mine(i) {
 			continue
